@@ -184,7 +184,7 @@ func HarnessC08Reuse() {
 	y := &ExprEqual{Column: "a", Value: "a0"} // no such value in the second index
 	var e Expression = x
 	var operands []Expression // the operand slice of the root, if it has one
-	shape := verifChoice("shape", 3)
+	shape := verifChoice("shape", 5)
 	switch shape {
 	case 1:
 		o := &ExprOr{Exprs: []Expression{x, x, y}}
@@ -192,6 +192,12 @@ func HarnessC08Reuse() {
 	case 2:
 		a := &ExprAnd{Exprs: []Expression{x, x, y}}
 		e, operands = a, a.Exprs
+	case 3: // a root with a single operand stands for that operand, but stays the root the caller set
+		a := &ExprAnd{Exprs: []Expression{x}}
+		e, operands = a, a.Exprs
+	case 4:
+		o := &ExprOr{Exprs: []Expression{&ExprAnd{Exprs: []Expression{x}}}}
+		e, operands = o, o.Exprs
 	}
 	givenOperands := append([]Expression(nil), operands...)
 	givenText := e.String()
@@ -204,7 +210,7 @@ func HarnessC08Reuse() {
 		case 2:
 			return rx & ry
 		}
-		return rx
+		return rx // shapes 0, 3, 4: x alone
 	}
 	q := &Query{Expr: e, GroupBy: list}
 	// a third index lacks column b (and r): executing the query there fails, possibly after
@@ -269,7 +275,7 @@ func HarnessC08Reuse() {
 	// the caller changes a comparison of the same Query value and executes it again: the
 	// result is that of a freshly constructed query equal to the changed one
 	y.Value = "a1"
-	if shape == 0 {
+	if shape == 0 || shape >= 3 {
 		x.Column, x.Value = "a", "a1"
 	}
 	changed := func(d *verifData) uint64 {
